@@ -3,6 +3,6 @@ from .worldcommon import ASSUME, TRUSTED
 
 SPEC = dict(id="C08", kind="world", monitor="suggestions_ok",
     coq_targets=["theories/Props/C08.vo", "theories/Corr/WorldAll.vo"],
-    level_text='C08_append_only and C08_count proved over all runs from the inductive invariant; C08_atomic_sync proved for every snapshot and reply (a status write keeps names/count/settings or appends exactly requests-count names of the one reply); uniqueness of names (C08_names_unique) is proved for every history whose algorithm replies are fresh (an assumption on the action parameters: distinct names not yet in the suggestion, for every reply that is asked for) and monitored on the implementation',
+    level_text='C08_monitor_sound: the whole property as the walk monitor (distinct names, count = length <= largest requests, previous list a prefix, a longer list appends exactly requests-count names of the one reply of a sync all of whose calls succeeded) holds at every step of every fresh history of the model (invariant SgInv over a ghost reply); C08_append_only and C08_count proved over all runs from the inductive invariant; C08_atomic_sync proved for every snapshot and reply (a status write keeps names/count/settings or appends exactly requests-count names of the one reply); uniqueness of names (C08_names_unique) is proved for every history whose algorithm replies are fresh (an assumption on the action parameters: distinct names not yet in the suggestion, for every reply that is asked for) and monitored on the implementation',
     level_note='freshness of the names in the replies of the algorithm service is an assumption on that service (the fake service of the harness generates fresh names)' + "; " + "; ".join(ASSUME),
     assumptions=ASSUME, trusted_base=TRUSTED)
